@@ -735,6 +735,71 @@ func c01Scenarios(res *eng.Result, ss *sigSet) {
 			m(`container a { leaf l { type string; } }`),
 			m(`grouping g { leaf l { type string; } } container a { uses g; }`)},
 	}
+	// refine matrix: one grouping used three times, exactly one use refines a property that the
+	// grouping itself states or leaves out; the other copies (and the grouping) must keep theirs
+	type rprop struct {
+		name, kind, target, v0, v1 string // target: refine path; v0: stated in the grouping; v1: refined to
+		additive                   bool   // must: the refine adds to what the grouping states
+	}
+	rprops := []rprop{
+		{"config-container", "container", "s", "config false;", "config true;", false},
+		{"config-leaf", "leaf", "l", "config false;", "config true;", false},
+		{"config-nested-leaf", "nested-leaf", "s/l", "config false;", "config true;", false},
+		{"mandatory", "leaf", "l", "mandatory false;", "mandatory true;", false},
+		{"default", "leaf", "l", `default "1";`, `default "2";`, false},
+		{"description", "leaf", "l", `description "d0";`, `description "d1";`, false},
+		{"presence", "container", "s", `presence "p0";`, `presence "p1";`, false},
+		{"min-elements", "leaf-list", "ll", "min-elements 1;", "min-elements 2;", false},
+		{"max-elements", "leaf-list", "ll", "max-elements 5;", "max-elements 6;", false},
+		{"max-elements-list", "list", "li", "max-elements 5;", "max-elements 6;", false},
+		{"must", "leaf", "l", `must "a";`, `must "b";`, true},
+	}
+	body := func(p rprop, stmt string) string {
+		switch p.kind {
+		case "container":
+			return "container s { " + stmt + " leaf l { type string; } } leaf o { type string; }"
+		case "leaf":
+			return "leaf l { type string; " + stmt + " } leaf o { type string; }"
+		case "nested-leaf":
+			return "container s { leaf l { type string; " + stmt + " } leaf o { type string; } }"
+		case "leaf-list":
+			return "leaf-list ll { type string; " + stmt + " } leaf o { type string; }"
+		case "list":
+			return "list li { key k; " + stmt + " leaf k { type string; } } leaf o { type string; }"
+		}
+		panic(p.kind)
+	}
+	for _, p := range rprops {
+		for _, stated := range []bool{true, false} {
+			for k := 0; k < 3; k++ {
+				v0 := ""
+				if stated {
+					v0 = p.v0
+				}
+				var inl, fac strings.Builder
+				fac.WriteString("grouping g { " + body(p, v0) + " } ")
+				for u := 0; u < 3; u++ {
+					name := string(rune('a' + u))
+					if u == k {
+						stmt := p.v1
+						if p.additive {
+							stmt = v0 + " " + p.v1
+						}
+						inl.WriteString("container " + name + " { " + body(p, stmt) + " } ")
+						fac.WriteString("container " + name + " { uses g { refine " + p.target + " { " + p.v1 + " } } } ")
+					} else {
+						inl.WriteString("container " + name + " { " + body(p, v0) + " } ")
+						fac.WriteString("container " + name + " { uses g; } ")
+					}
+				}
+				st := "unstated"
+				if stated {
+					st = "stated"
+				}
+				scs = append(scs, sc{fmt.Sprintf("refine-matrix/%s/%s-in-grouping/use-%d-of-3", p.name, st, k+1), m(inl.String()), m(fac.String())})
+			}
+		}
+	}
 	for _, s := range scs {
 		want, err, fr, msg := c01Dump(s.inline)
 		res.States++
